@@ -12,6 +12,8 @@
                       (Gen.Packs, instrumented: FailClosed.toA)  →  ok <rest> <units> | fail <units> | skip
                       (skip: type not registered, or its layout has an untranscribed part)
 
+    RH <sql|httpc> <hex>  three GetRecords() on a Stat{Sql,Httpc}Pack whose Records are <hex>
+                      (FailClosed.Lazy.runOps, non-caching spec over Gen.Packs.{Sql,Httpc}Rec)  →  <ok|fail>,<ok|fail>,<ok|fail>
     TH <hex>          lazy decode of a StatGeneralPack table (`dataBytes` = <hex>, FailClosed.Lazy.unpack
                       over the table layout Packs.Irregular.StatGeneralTable): three accesses, then Write
                       →  <ok|fail>,<ok|fail>,<ok|fail> <raw|table>   (raw: Write emits the undecoded bytes)
@@ -85,8 +87,15 @@ def hasUnknown : Layout.L → Bool
   | .hdr r => hasUnknown r
   | .times _ _ b r => hasUnknown b || hasUnknown r
   | .sub _ b r => hasUnknown b || hasUnknown r
+  | .kfld _ _ _ r => hasUnknown r
+  | .key _ _ _ r => hasUnknown r
+  | .mopt _ _ b r => hasUnknown b || hasUnknown r
+  | .vopt _ _ b r => hasUnknown b || hasUnknown r
+  | .mrep _ _ b r => hasUnknown b || hasUnknown r
+  | .vrep _ _ b r => hasUnknown b || hasUnknown r
+  | .srep _ b r => hasUnknown b || hasUnknown r
+  | .avail b => hasUnknown b
   | .unknown _ => true
-  | _ => true
 
 def packReader (bs : Bytes) : Option (Layout.L × Bytes) :=
   match P.run (rdI 2) bs with
@@ -115,6 +124,18 @@ def tableHistory (bs : Bytes) : String :=
   let w := if r3.obj.raw.isEmpty then "table" else "raw"
   s!"{sh r1},{sh r2},{sh r3} {w}"
 
+/-- `Stat{Sql,Httpc}Pack.GetRecords`: 16-bit count (`& 0xffff`), then the records; a non-caching
+    two-phase decoder (FailClosed.Lazy.Spec with cache = false) -/
+def recordsHistory (rec : Layout.L) (bs : Bytes) : String :=
+  let tbl : Layout.L := .rep .u16 "recs" rec .nil
+  let S : FailClosed.Lazy.Spec (List (String × Layout.Val)) (String × Layout.Val) :=
+    { parse := fun b => match tbl.read "" (fun _ => 0) b with
+        | some (o, _, _) => (o, true)
+        | none => ([], false),
+      put := fun t c => t ++ [c], enc := fun _ => [], empty := fun t => t.isEmpty, cache := false }
+  let obs := FailClosed.Lazy.runOps S ⟨bs, []⟩ [.access, .access, .access]
+  ",".intercalate (obs.map (fun o => match o with | .failed => "fail" | _ => "ok"))
+
 def answer (line : String) : String :=
   match line.splitOn " " with
   | ["V", hex] =>
@@ -140,6 +161,13 @@ def answer (line : String) : String :=
       | some (_, c') => s!"ok {c'.bytes.length}"
       | none => "fail"
     | _, _, _ => "bad-op"
+  | ["RH", kind, hex] =>
+    match ofHex hex with
+    | some bs =>
+      if kind == "sql" then recordsHistory Gen.Packs.SqlRec.r bs
+      else if kind == "httpc" then recordsHistory Gen.Packs.HttpcRec.r bs
+      else "bad-op"
+    | none => "bad-op"
   | ["TH", hex] =>
     match ofHex hex with
     | some bs => tableHistory bs
